@@ -5,7 +5,9 @@ a chart with __old__ contracts, deep/shallow history over an orthogonal state, d
 external events, events with mutable payloads and context variables: snapshot by pickle and by
 copy.deepcopy, then for every continuation up to depth C compare in lock-step (a) a twin that never
 took a snapshot, (b) the restored pickle, (c) the restored deep copy, (d) the original after the
-snapshots were taken."""
+snapshots were taken; finally the snapshotted interpreter itself is compared with a twin after all its
+copies have been run.  A context variable is first defined (setdefault) by an action, i.e. possibly
+after the snapshot."""
 import collections
 import copy
 import itertools
@@ -42,6 +44,9 @@ statechart:
       transitions:
       - event: pause
         target: idle
+        action: |
+          setdefault('pauses', 0)
+          pauses = pauses + 1
       states:
       - name: a
         on entry: x += 1
@@ -219,6 +224,12 @@ def work(task):
             if got != ref:
                 viol('deepcopy-shares-state', hist, cont, ref, got)
             res['transitions'] += 4
+        # running the restored copies must not have reached back into the interpreter they were taken from
+        twin = fresh(hist)
+        a = (sorted(it.configuration), repr(sorted(it.context.items())), it.time)
+        b = (sorted(twin.configuration), repr(sorted(twin.context.items())), twin.time)
+        if a != b:
+            viol('original-disturbed-by-running-copies', hist, ('(all continuations)',), [b], [a])
     res['distinct'] = len(seen_states)
     return res
 
@@ -243,7 +254,7 @@ def run(tier, seed):
     viols.sort(key=lambda v: len(v.replay['hist']))
     cov = {
         'programs': 1, 'states': agg.states, 'transitions': agg.transitions,
-        'traces_validated_against_impl': agg.transitions, 'exhaustive': False,
+        'traces_validated_against_impl': agg.transitions, 'exhaustive': True, 'state_space_closed': False,
         'history_depth': D, 'continuation_depth': C, 'alphabet': OPS,
         'distinct_interpreter_states_snapshotted': max(r['distinct'] for r in results),
         'outcomes': dict(agg.outcomes),
